@@ -634,7 +634,11 @@ func cmdC06(tier string, seed int64, out, statsOut, replay string) {
 			gen.cfg.Contents = append(gen.cfg.Contents,
 				&files.Content{Source: "src/k", Destination: fmt.Sprintf("/opt/refs%d/tree", i), Type: "tree"},
 				&files.Content{Source: "src/d/*", Destination: fmt.Sprintf("/opt/refs%d/glob/", i)},
-				&files.Content{Source: "src/f1", Destination: fmt.Sprintf("/opt/refs%d/f1", i)})
+				&files.Content{Source: "src/f1", Destination: fmt.Sprintf("/opt/refs%d/f1", i)},
+				// the entry types only rpm has (their sources are read by the packager itself, not expanded by a pattern)
+				&files.Content{Source: "src/d/x", Destination: fmt.Sprintf("/usr/share/doc/refs%d/manual", i), Type: files.TypeRPMDoc},
+				&files.Content{Source: "src/h/x", Destination: fmt.Sprintf("/usr/share/doc/refs%d/LICENSE", i), Type: files.TypeRPMLicence},
+				&files.Content{Source: "src/k/conf/app.cfg", Destination: fmt.Sprintf("/usr/share/doc/refs%d/README", i), Type: files.TypeRPMReadme})
 		}
 		// a changelog in every second one (the generator sets one in a fifth of its configurations only)
 		if i%2 == 1 && gen.cfg.Changelog == "" {
